@@ -288,3 +288,112 @@ class PreemptOnce:
         if ta.is_alive() or tb.is_alive():
             raise RuntimeError("preemption harness: dead-lock")
         return res["a"], res["b"], st
+
+
+class Alternating:
+    """Generalisation of PreemptOnce to several hand-overs: both tasks run in real threads under sys.settrace; `segments`
+    is a list of point budgets given alternately to A, B, A, B, ... (0 = run to completion). A thread passes that many
+    schedule points and parks; when the list is exhausted (or a thread has finished) the remaining threads run to
+    completion, A first. A thread that neither parks nor finishes within `block_timeout` is waiting for something the
+    other thread holds: the other thread is then run to completion first (a legal continuation)."""
+
+    def __init__(self, pkgdir, events=("call", "return"), block_timeout=5.0):
+        self.pkgdir = pkgdir
+        self.events = frozenset(events)
+        self.block_timeout = block_timeout
+
+    def run(self, fn_a, fn_b, segments):
+        import sys
+
+        cv = threading.Condition()
+        T = {n: {"budget": 0, "status": "parked", "where": None, "passed": 0} for n in "ab"}
+        res = {}
+        events, pkgdir = self.events, self.pkgdir
+        trace = []
+
+        def make(name, fn):
+            me = T[name]
+
+            def hit(frame, event):
+                me["passed"] += 1
+                if me["budget"] > 0:
+                    me["budget"] -= 1
+                    if me["budget"] == 0:
+                        co = frame.f_code
+                        me["where"] = f"{co.co_filename[len(pkgdir):].lstrip('/')}:{co.co_name}:{frame.f_lineno}:{event}"
+                        with cv:
+                            me["status"] = "parked"
+                            cv.notify_all()
+                            cv.wait_for(lambda: me["status"] == "running", timeout=300.0)
+
+            def local(frame, event, arg):
+                if event in events:
+                    hit(frame, event)
+                return local
+
+            def glob(frame, event, arg):
+                if frame.f_code.co_filename.startswith(pkgdir):
+                    if "call" in events:
+                        hit(frame, "call")
+                    return local
+                return None
+
+            def go():
+                with cv:
+                    cv.wait_for(lambda: me["status"] == "running", timeout=300.0)
+                sys.settrace(glob)
+                try:
+                    res[name] = ("ok", fn())
+                except BaseException as e:  # noqa: BLE001
+                    res[name] = ("err", e)
+                finally:
+                    sys.settrace(None)
+                    with cv:
+                        me["status"] = "done"
+                        cv.notify_all()
+
+            return threading.Thread(target=go, name=f"alt-{name}", daemon=True)
+
+        ths = {"a": make("a", fn_a), "b": make("b", fn_b)}
+        for t in ths.values():
+            t.start()
+
+        def give(name, budget):
+            """let `name` run for `budget` points (0 = to completion); returns False if it blocked."""
+            me = T[name]
+            if me["status"] == "done":
+                return True
+            with cv:
+                me["budget"] = budget if budget > 0 else -1
+                me["status"] = "running"
+                cv.notify_all()
+                ok = cv.wait_for(lambda: me["status"] in ("parked", "done"), timeout=self.block_timeout if budget == 0 or True else None)
+            trace.append((name, budget, me["status"], me["where"]))
+            return ok
+
+        blocked = False
+        for k, seg in enumerate(segments):
+            name = "ab"[k % 2]
+            if not give(name, int(seg)):
+                other = "ba"[k % 2]
+                blocked = True
+                if not give(other, 0):
+                    raise RuntimeError("alternating harness: both threads blocked")
+                with cv:
+                    cv.wait_for(lambda: T[name]["status"] in ("parked", "done"), timeout=120.0)
+        for name in "ab":
+            if T[name]["status"] != "done":
+                if T[name]["status"] == "running":  # still running after a block: wait for it
+                    with cv:
+                        cv.wait_for(lambda: T[name]["status"] in ("parked", "done"), timeout=120.0)
+                if T[name]["status"] != "done" and not give(name, 0):
+                    other = "b" if name == "a" else "a"
+                    blocked = True
+                    give(other, 0)
+                    with cv:
+                        cv.wait_for(lambda: T[name]["status"] == "done", timeout=120.0)
+        for t in ths.values():
+            t.join(120.0)
+        if any(t.is_alive() for t in ths.values()):
+            raise RuntimeError("alternating harness: dead-lock")
+        return res["a"], res["b"], {"trace": trace, "blocked": blocked, "passed": {n: T[n]["passed"] for n in "ab"}}
